@@ -2,7 +2,7 @@
    (any sequence of BIO calls, results and errors), for every oracle script of the operating system.
    What is NOT proved here: that OpenSSL encrypts and completes handshakes — the engine is an oracle (see DESIGN.md);
    the handshake's progress in driver mode is decided by the correspondence check's liveness monitor (gen/c18.py). *)
-From SP Require Import Base ListAux Os OsLemmas WaitModel WaitLemmas SocketModel Objects DriverModel TlsModel TlsLemmas TlsEmits TlsBracket TlsInterest TlsDrain TlsBudget TlsComplete Sim.
+From SP Require Import Base ListAux Os OsLemmas WaitModel WaitLemmas SocketModel Objects DriverModel TlsModel TlsLemmas TlsEmits TlsBracket TlsInterest TlsDrain TlsBudget TlsComplete TlsDeadline Sim.
 Local Open Scope Z_scope.
 
 Local Notation os := (os ext).
@@ -211,6 +211,29 @@ Theorem step_budget_is_measured_against_the_operation_deadline :
                   t_rem t' = dl_remaining {| d_now := now'; d_deadline := t_end t |}.
 Proof. exact TlsBudget.step_budget_is_measured_against_the_operation_deadline. Qed.
 
+(* ... and the lower half of C07 for the waits of the TLS glue: SetTimeout establishes the budget invariant (the remaining time is
+   what was left until the operation's deadline at some earlier clock reading), every budgeted step that leaves the TLS table alone
+   re-establishes it, and under it a wait that says "not yet" ends at most two milliseconds before the operation's deadline (one
+   for the truncation of the remaining time, one for poll's granularity) — whatever number of steps came before. *)
+Theorem set_timeout_fixes_the_deadline : forall k T (s : os) s',
+  0 < T -> tls_set_timeout k T s = (Ok tt, s') ->
+  exists t', aget k (x_tls (o_ext s')) = Some t' /\ t_rem t' = T /\ budget_ok s' t'.
+Proof. exact TlsDeadline.set_timeout_fixes_the_deadline. Qed.
+
+Theorem budgeted_step_keeps_the_invariant : forall A k (fn : Z -> MX A) (s : os) t r s',
+  (forall tm (s0 : os) r0 s0', fn tm s0 = (r0, s0') -> o_ext s0' = o_ext s0) ->
+  aget k (x_tls (o_ext s)) = Some t -> 0 < t_rem t ->
+  under_deadline k fn s = (Ok r, s') ->
+  exists t', aget k (x_tls (o_ext s')) = Some t' /\ t_end t' = t_end t /\ budget_ok s' t'.
+Proof. exact TlsDeadline.budgeted_step_keeps_the_invariant. Qed.
+
+Theorem budgeted_wait_gives_up_near_the_deadline : forall k fd ev (s : os) t s',
+  aget k (x_tls (o_ext s)) = Some t -> budget_ok s t -> t_rem t <= INT_MAX ->
+  calm (o_script s) ->
+  under_deadline k (fun tm => wait_fd fd ev tm) s = (Ok false, s') ->
+  exists new, extends s s' new /\ (honest_lo new -> t_end t - 2 * NS_PER_MS < o_now s').
+Proof. exact TlsDeadline.budgeted_wait_gives_up_near_the_deadline. Qed.
+
 (* Finding F13 (known, not repaired): the retry loops assert that ten rounds always suffice. In driver mode (and for calls with
    a zero time-out) input that trickles in — ten times in a row the zero-time-out look of BioRead finds nothing and the
    zero-time-out wait of HandleError right after it finds the socket ready — exhausts them: the faithful model reaches
@@ -269,3 +292,6 @@ Print Assumptions tls_send_complete.
 Print Assumptions read_steps_suffice_refuted.
 Print Assumptions driver_receive_drains_the_engine.
 Print Assumptions step_budget_is_measured_against_the_operation_deadline.
+Print Assumptions set_timeout_fixes_the_deadline.
+Print Assumptions budgeted_step_keeps_the_invariant.
+Print Assumptions budgeted_wait_gives_up_near_the_deadline.
